@@ -98,6 +98,13 @@ func runC09(c *Ctx) {
 				f.Impl = clip(pc.Out1 + pc.Err1)
 			}
 		}, "print", pc.J.Wire())
+		// the same round trip inside the model: print, re-read with the Lean parser + FromSyntax, print again
+		bt.Add(func(m string) {
+			if m == "rejected" || m == "unsupported" {
+				return
+			}
+			c.Monitor("print", pc.Idx, "model_print_parse_print_fixpoint", in, m == "ok", "model round trip: "+m)
+		}, "c09roundtrip", pc.J.Wire())
 		if pc.Code == 0 {
 			c.Monitor("print", pc.Idx, "print_output_accepted", in, pc.Code2 == 0, "printed journal is rejected:\n"+pc.Out1)
 			if pc.Code2 == 0 {
